@@ -75,7 +75,7 @@ Refused(e) == e.outcome = "invalid" /\ ~e.deliv
 (* initfail: the synchronous initialisation that the event triggered failed; the caller    *)
 (* got that exception, nothing was delivered (the fault line just before made the run     *)
 (* doomed)                                                                                *)
-Ext(e) == /\ IF e.outcome = "initfail" THEN doomed /\ ~e.deliv
+Ext(e) == /\ IF e.outcome = "initfail" THEN (err # NONE \/ doomed) /\ ~e.deliv
              ELSE IF ~Ready \/ (doomed /\ stopt0 # NONE) THEN Refused(e)
              ELSE IF doomed THEN Delivered(e) \/ Refused(e)
              ELSE Delivered(e)
